@@ -1768,8 +1768,7 @@ impl GrafeoDB {
     ///
     /// Returns an error if the snapshot is invalid or deserialization fails.
     pub fn import_snapshot(data: &[u8]) -> Result<Self> {
-        let config = bincode::config::standard();
-        let (snapshot, _): (Snapshot, _) = bincode::serde::decode_from_slice(data, config)
+        let snapshot = decode_snapshot(data)
             .map_err(|e| Error::Internal(format!("snapshot import failed: {e}")))?;
 
         if snapshot.version != 1 {
@@ -1817,6 +1816,49 @@ impl GrafeoDB {
     pub fn iter_edges(&self) -> impl Iterator<Item = grafeo_core::graph::lpg::Edge> + '_ {
         self.store.all_edges()
     }
+}
+
+/// Decodes a snapshot with a bound on what the decoder may allocate.
+///
+/// Every length prefix in the data is followed by that many encoded items, so nothing valid
+/// expands to more than a fixed multiple of the encoded size. Without a bound a damaged length
+/// prefix makes the decoder allocate (or panic with a capacity overflow) before it notices that
+/// the data ends early. The limit is a const parameter of the decoder, hence the size classes.
+fn decode_snapshot(data: &[u8]) -> std::result::Result<Snapshot, bincode::error::DecodeError> {
+    /// In-memory bytes claimed per encoded byte (varints and small records expand when decoded)
+    const EXPANSION: usize = 64;
+    macro_rules! decode_within {
+        ($limit:expr) => {
+            bincode::serde::decode_from_slice::<Snapshot, _>(
+                data,
+                bincode::config::standard().with_limit::<{ $limit }>(),
+            )
+        };
+    }
+    let need = data.len().saturating_mul(EXPANSION);
+    let decoded = if need <= 1 << 20 {
+        decode_within!(1 << 20)
+    } else if need <= 1 << 26 {
+        decode_within!(1 << 26)
+    } else if need <= 1 << 30 {
+        decode_within!(1 << 30)
+    } else {
+        #[cfg(target_pointer_width = "64")]
+        {
+            if need <= 1 << 36 {
+                decode_within!(1 << 36)
+            } else if need <= 1 << 42 {
+                decode_within!(1 << 42)
+            } else {
+                bincode::serde::decode_from_slice::<Snapshot, _>(data, bincode::config::standard())
+            }
+        }
+        #[cfg(not(target_pointer_width = "64"))]
+        {
+            bincode::serde::decode_from_slice::<Snapshot, _>(data, bincode::config::standard())
+        }
+    };
+    decoded.map(|(snapshot, _)| snapshot)
 }
 
 /// Binary snapshot format for database export/import.
